@@ -185,3 +185,11 @@ for _nm, _d in (("augment", 1), ("diminish", -1)):
         modifies=["param:self"],
         split=[{"field_types": {"self.notes": "[" + ",".join(["Note"] * k) + "]"}} for k in range(0, 4)], split_is_domain=True,
         properties=["C11"], battery="nc_only_distinct")
+
+CONTRACTS[M + "__add__"] = dict(
+    params={"self": "NoteContainer", "notes": "NoteContainer"},
+    requires=[("pitch-ordered-duplicate-free", RI), ("valid-notes", _OTHER_OK)],
+    returns="NoteContainer", ensures=[("returns-self", "same_object(result, self)")],
+    modifies=["param:self", "param:self.notes"], inline_callees=[M + "add_notes", M + "add_note"],
+    split=[{"field_types": {"self.notes": a, "notes.notes": b}} for a in SIZES[:2] for b in SIZES[:2]], split_is_domain=True,
+    notes="'+' is add_notes and hands back the receiver", properties=["C12"], battery="nc_merge")
